@@ -68,6 +68,19 @@ def run(chk):
         subprocess.run([f32, "num-record", fam, str(chk.seed * 10 + i), "19", "60" if quick else "200", "0", tf], check=True, stdout=subprocess.DEVNULL)
         jobs.append(("Trace_Num", ncfg, tf, "value_type_f32 " + fam))
 
+    # Action::from(ValueType) at single precision: the From<f64> step function of MC_Action replayed on the f32 build
+    ar = tlc("MC_Action", "MC_Action_float.cfg", workers=4, timeout=1200, tags=("BAD", "FROW"))
+    if ar.error or ar.violation:
+        raise ToolError("MC_Action_float: %s" % (ar.error or ar.violation))
+    frows = [p for t, p in ar.printed if t == "FROW"]
+    af = os.path.join(wd, "frows.ndjson")
+    write_ndjson(af, frows)
+    for m in lines_of(run_harness(f32, ["action-replay", af])):
+        if m.get("kind") == "mismatch":
+            chk.finding("f32build:" + m["key"], {"stage": "A:action-replay(value_type_f32)", "ctx": m.get("ctx"), "expected": m.get("expected"), "actual": m.get("actual")})
+    chk.add_tlc("MC_Action_float.cfg", ar, {"what": "Action::from(ValueType) step function, replayed on the value_type_f32 build"})
+    chk.cov["replayed_behaviours"] += len(frows)
+
     def val(j):
         ok, info, r = tlc_trace(j[0], j[1], j[2], timeout=3000)
         return j, ok, info, r
